@@ -18,11 +18,11 @@
 #include <stdarg.h>
 
 /* ======================================================================================
- * 1. ghost state — ONE object (vgc), so that contracts name one assigns target per group
- *    (DFCC's write-set bookkeeping is quadratic in the number of targets).  The vg_* names
- *    used everywhere are aliases of its members.
+ * 1. ghost state — a handful of small objects (one per group), so that contracts name one
+ *    assigns target per group (DFCC's write-set bookkeeping is quadratic in the number of
+ *    targets) while no object is big (every byte-level access to an object that a pointer may
+ *    alias is spelled out over the whole object).  The vg_* names are aliases of the members.
  * ====================================================================================== */
-#define VLOG_MAX 4
 #define VK_BEGIN 1
 #define VK_END   2
 #define VK_TEXT  3
@@ -35,110 +35,114 @@ typedef struct {
     unsigned long seq;           /* vg_seq at the call                                   */
 } vlog_t;
 
-struct vconf_ghost {
-    /* spawn group */
-    struct {
-        unsigned long spawned;       /* processes spawned: system/popen/fork/exec*                    */
-        unsigned long saw_preproc;   /* times a line matched the directive word "preproc "            */
-        unsigned long saw_bq;        /* shell_expand's contract: a backquote was read                 */
-        unsigned long saw_exec;      /* shell_expand's contract: %exec( was matched                   */
-    } sp;
-    long open_streams;               /* fopen/fdopen successes minus fclose calls                     */
-    long open_dirs;                  /* opendir successes minus closedir calls                        */
-    unsigned long dir_budget;        /* directory entries the environment still delivers              */
-    size_t dname_len;                /* a NUL position of the d_name readdir handed out last          */
-    /* event order */
-    struct {
-        unsigned long seq;           /* global event counter (orders chomp / expand / handler calls)  */
-        unsigned long t_chomp, t_expand;   /* vg_seq when the line was chomped / expanded             */
-    } ev;
-    /* fgets stub <-> parse loop bookkeeping */
-    struct {
-        unsigned long budget;        /* chunks the environment will still deliver (files are finite)  */
-        _Bool mid;                   /* the previous chunk of the current stream had no newline       */
-        _Bool nl;                    /* last successful fgets: C-string view has a newline            */
-        size_t len;                  /* last successful fgets: position of a NUL in the chunk         */
-        char *buf;                   /* last successful fgets: buffer                                 */
-        _Bool ok;                    /* last fgets call returned non-NULL                             */
-        _Bool hdr;                   /* stream just opened by fopen: next chunk is the header line    */
-        unsigned long deliverable;   /* complete lines (line-initial chunk ending in newline) read    */
-    } fg;
-    unsigned long pl_calls;          /* spifconf_parse_line calls (bumped by the entry annotation)    */
-    /* umask / mkstemp / fchmod recording (spiftool_temp_file) */
-    struct {
-        mode_t umask_cur;            /* the process umask                                             */
-        unsigned long umask_calls;
-        mode_t mkstemp_umask;        /* umask in force when mkstemp ran                               */
-        _Bool mkstemp_tpl_ok;        /* template was a C string ending in XXXXXX                      */
-        unsigned long mkstemp_calls;
-        int mkstemp_fd;              /* descriptor mkstemp returned (-1: failed)                      */
-        int fchmod_fd;               /* last successful fchmod: descriptor, mode                      */
-        mode_t fchmod_mode;
-        unsigned long fchmod_calls;
-        size_t tpl_len;              /* a NUL position of the name spiftool_temp_file hands back      */
-    } tf;
-    /* handler log (re-binding 6a) */
-    struct {
-        vlog_t log[VLOG_MAX];        /* ring: call number c is in log[c % VLOG_MAX]                   */
-        unsigned long nlog;          /* handler calls so far                                          */
-        unsigned char call_id;
-        ctx_handler_t call_h;
-    } hl;
-    /* strings.c callee contracts */
-    struct {
-        char line[16];               /* the chomped line: first 16 bytes of the text chomp leaves     */
-        size_t gw_len;               /* ghost length of the word get_word returned                    */
-        size_t se_len;               /* a NUL position of the text shell_expand left in s             */
-    } st;
-    /* context lookup (re-binding 6b) */
-    struct {
-        int cmp_last;                /* result of the last strcasecmp call                            */
-        int at_k;                    /* outcome of the comparison with context[vg_k].name             */
-        unsigned long res;           /* last result of v_ctx_lookup                                   */
-        int hit;                     /* outcome of the comparison at the returned index               */
-    } lk;
-} vgc;
-#define vg_spawned        vgc.sp.spawned
-#define vg_saw_preproc    vgc.sp.saw_preproc
-#define vg_saw_bq         vgc.sp.saw_bq
-#define vg_saw_exec       vgc.sp.saw_exec
-#define vg_open_streams   vgc.open_streams
-#define vg_open_dirs      vgc.open_dirs
-#define vg_dir_budget     vgc.dir_budget
-#define vg_dname_len      vgc.dname_len
-#define vg_seq            vgc.ev.seq
-#define vg_t_chomp        vgc.ev.t_chomp
-#define vg_t_expand       vgc.ev.t_expand
-#define vg_fg_budget      vgc.fg.budget
-#define vg_fg_mid         vgc.fg.mid
-#define vg_fg_nl          vgc.fg.nl
-#define vg_fg_len         vgc.fg.len
-#define vg_fg_buf         vgc.fg.buf
-#define vg_fg_ok          vgc.fg.ok
-#define vg_fg_hdr         vgc.fg.hdr
-#define vg_deliverable    vgc.fg.deliverable
-#define vg_pl_calls       vgc.pl_calls
-#define vg_umask_cur      vgc.tf.umask_cur
-#define vg_umask_calls    vgc.tf.umask_calls
-#define vg_mkstemp_umask  vgc.tf.mkstemp_umask
-#define vg_mkstemp_tpl_ok vgc.tf.mkstemp_tpl_ok
-#define vg_mkstemp_calls  vgc.tf.mkstemp_calls
-#define vg_mkstemp_fd     vgc.tf.mkstemp_fd
-#define vg_fchmod_fd      vgc.tf.fchmod_fd
-#define vg_fchmod_mode    vgc.tf.fchmod_mode
-#define vg_fchmod_calls   vgc.tf.fchmod_calls
-#define vg_tpl_len        vgc.tf.tpl_len
-#define vg_log            vgc.hl.log
-#define vg_nlog           vgc.hl.nlog
-#define vg_call_id        vgc.hl.call_id
-#define vg_call_h         vgc.hl.call_h
-#define vg_line           vgc.st.line
-#define vg_gw_len         vgc.st.gw_len
-#define vg_se_len         vgc.st.se_len
-#define vg_cmp_last       vgc.lk.cmp_last
-#define vg_lk_at_k        vgc.lk.at_k
-#define vg_lk             vgc.lk.res
-#define vg_lk_hit         vgc.lk.hit
+/* spawn group */
+struct {
+    unsigned long spawned;       /* processes spawned: system/popen/fork/exec*                    */
+    unsigned long saw_preproc;   /* times a line matched the directive word "preproc "            */
+    unsigned long saw_bq;        /* shell_expand's contract: a backquote was read                 */
+    unsigned long saw_exec;      /* shell_expand's contract: %exec( was matched                   */
+} vg_sp;
+/* counters */
+struct {
+    unsigned long open_streams;  /* fopen/fdopen successes minus fclose calls (wraps: only compared for equality) */
+    unsigned long open_dirs;     /* opendir successes minus closedir calls                        */
+    unsigned long dir_budget;    /* directory entries the environment still delivers              */
+    size_t dname_len;            /* a NUL position of the d_name readdir handed out last          */
+    unsigned long pl_calls;      /* spifconf_parse_line calls (bumped by the entry annotation)    */
+    _Bool exc;                   /* a parse_line call hit the excused behaviour (conf.h PL_PREPROC_AGAIN) */
+} vg_ct;
+/* event order */
+struct {
+    unsigned long seq;           /* global event counter (orders chomp / expand / handler calls)  */
+    unsigned long t_chomp, t_expand;   /* vg_seq when the line was chomped / expanded             */
+} vg_ev;
+/* fgets stub <-> parse loop bookkeeping */
+struct {
+    unsigned long budget;        /* chunks the environment will still deliver (files are finite)  */
+    _Bool mid;                   /* the previous chunk of the current stream had no newline       */
+    _Bool nl;                    /* last successful fgets: C-string view has a newline            */
+    size_t len;                  /* last successful fgets: position of a NUL in the chunk         */
+    char *buf;                   /* last successful fgets: buffer                                 */
+    _Bool ok;                    /* last fgets call returned non-NULL                             */
+    _Bool hdr;                   /* stream just opened by fopen: next chunk is the header line    */
+    unsigned long deliverable;   /* complete lines (line-initial chunk ending in newline) read    */
+} vg_fg;
+/* umask / mkstemp / fchmod recording (spiftool_temp_file) */
+struct {
+    mode_t umask_cur;            /* the process umask                                             */
+    unsigned long umask_calls;
+    mode_t mkstemp_umask;        /* umask in force when mkstemp ran                               */
+    _Bool mkstemp_tpl_ok;        /* template was a C string ending in XXXXXX                      */
+    unsigned long mkstemp_calls;
+    int mkstemp_fd;              /* descriptor mkstemp returned (-1: failed)                      */
+    int fchmod_fd;               /* last successful fchmod: descriptor, mode                      */
+    mode_t fchmod_mode;
+    unsigned long fchmod_calls;
+    size_t tpl_len;              /* a NUL position of the name spiftool_temp_file hands back      */
+} vg_tf;
+/* handler log (re-binding 6a): the last three calls, most recent first (no symbolic index) */
+struct {
+    vlog_t c0, c1, c2;
+    unsigned long nlog;          /* handler calls so far                                          */
+    unsigned char call_id;
+    ctx_handler_t call_h;
+} vg_hl;
+/* strings.c callee contracts */
+struct {
+    char line[16];               /* the chomped line: first 16 bytes of the text chomp leaves     */
+    size_t gw_len;               /* ghost length of the word get_word returned                    */
+    size_t se_len;               /* a NUL position of the text shell_expand left in s             */
+} vg_st;
+/* context lookup (re-binding 6b) */
+struct {
+    int cmp_last;                /* result of the last strcasecmp call                            */
+    int at_k;                    /* outcome of the comparison with context[vg_k].name             */
+    unsigned long res;           /* last result of v_ctx_lookup                                   */
+    int hit;                     /* outcome of the comparison at the returned index               */
+} vg_lkp;
+/* every ghost group, for assigns clauses */
+#define VG_ALL vg_sp, vg_ct, vg_ev, vg_fg, vg_tf, vg_hl, vg_st, vg_lkp
+#define vg_spawned        vg_sp.spawned
+#define vg_saw_preproc    vg_sp.saw_preproc
+#define vg_saw_bq         vg_sp.saw_bq
+#define vg_saw_exec       vg_sp.saw_exec
+#define vg_open_streams   vg_ct.open_streams
+#define vg_open_dirs      vg_ct.open_dirs
+#define vg_dir_budget     vg_ct.dir_budget
+#define vg_dname_len      vg_ct.dname_len
+#define vg_pl_calls       vg_ct.pl_calls
+#define vg_exc            vg_ct.exc
+#define vg_seq            vg_ev.seq
+#define vg_t_chomp        vg_ev.t_chomp
+#define vg_t_expand       vg_ev.t_expand
+#define vg_fg_budget      vg_fg.budget
+#define vg_fg_mid         vg_fg.mid
+#define vg_fg_nl          vg_fg.nl
+#define vg_fg_len         vg_fg.len
+#define vg_fg_buf         vg_fg.buf
+#define vg_fg_ok          vg_fg.ok
+#define vg_fg_hdr         vg_fg.hdr
+#define vg_deliverable    vg_fg.deliverable
+#define vg_umask_cur      vg_tf.umask_cur
+#define vg_umask_calls    vg_tf.umask_calls
+#define vg_mkstemp_umask  vg_tf.mkstemp_umask
+#define vg_mkstemp_tpl_ok vg_tf.mkstemp_tpl_ok
+#define vg_mkstemp_calls  vg_tf.mkstemp_calls
+#define vg_mkstemp_fd     vg_tf.mkstemp_fd
+#define vg_fchmod_fd      vg_tf.fchmod_fd
+#define vg_fchmod_mode    vg_tf.fchmod_mode
+#define vg_fchmod_calls   vg_tf.fchmod_calls
+#define vg_tpl_len        vg_tf.tpl_len
+#define vg_nlog           vg_hl.nlog
+#define vg_call_id        vg_hl.call_id
+#define vg_call_h         vg_hl.call_h
+#define vg_line           vg_st.line
+#define vg_gw_len         vg_st.gw_len
+#define vg_se_len         vg_st.se_len
+#define vg_cmp_last       vg_lkp.cmp_last
+#define vg_lk_at_k        vg_lkp.at_k
+#define vg_lk             vg_lkp.res
+#define vg_lk_hit         vg_lkp.hit
 
 /* ======================================================================================
  * 2. comparison family (replaces env.h's: units define VERIF_OWN_STRCMP)
@@ -176,6 +180,7 @@ int strncasecmp(const char *a, const char *b, size_t n)
     __CPROVER_assert(n == 0 || (a != NULL && b != NULL), "strncasecmp: arguments not NULL");
     __CPROVER_assert(n == 0 || (__CPROVER_r_ok(a, 1) && __CPROVER_r_ok(b, 1)), "strncasecmp: arguments readable");
     if (n == 0) return 0;
+    __CPROVER_assume(a != NULL && b != NULL && __CPROVER_r_ok(a, 1) && __CPROVER_r_ok(b, 1));   /* (a failed obligation above ends the path) */
     VCMP_LOAD
     /* ghost: the directive word "preproc " was matched (C11 spawn freedom) */
     if (n == 8 && b0 == 'p' && b1 == 'r' && b2 == 'e' && b3 == 'p' && b4 == 'r' && b5 == 'o' && b6 == 'c' && b7 == ' '
@@ -191,6 +196,7 @@ int strncmp(const char *a, const char *b, size_t n)
     __CPROVER_assert(n == 0 || (a != NULL && b != NULL), "strncmp: arguments not NULL");
     __CPROVER_assert(n == 0 || (__CPROVER_r_ok(a, 1) && __CPROVER_r_ok(b, 1)), "strncmp: arguments readable");
     if (n == 0) return 0;
+    __CPROVER_assume(a != NULL && b != NULL && __CPROVER_r_ok(a, 1) && __CPROVER_r_ok(b, 1));   /* (a failed obligation above ends the path) */
     VCMP_LOAD
     VCMP_BODY(VRAW)
     return v_cmp_tail();
@@ -200,6 +206,7 @@ int strcmp(const char *a, const char *b)
     size_t n = 9;
     __CPROVER_assert(a != NULL && b != NULL, "strcmp: arguments not NULL");
     __CPROVER_assert(__CPROVER_r_ok(a, 1) && __CPROVER_r_ok(b, 1), "strcmp: arguments readable");
+    __CPROVER_assume(a != NULL && b != NULL && __CPROVER_r_ok(a, 1) && __CPROVER_r_ok(b, 1));   /* (a failed obligation above ends the path) */
     VCMP_LOAD
     VCMP_BODY(VRAW)
     return v_cmp_tail();
@@ -211,6 +218,7 @@ int strcasecmp(const char *a, const char *b)
     size_t n = 9;
     __CPROVER_assert(a != NULL && b != NULL, "strcasecmp: arguments not NULL");
     __CPROVER_assert(__CPROVER_r_ok(a, 1) && __CPROVER_r_ok(b, 1), "strcasecmp: arguments readable");
+    __CPROVER_assume(a != NULL && b != NULL && __CPROVER_r_ok(a, 1) && __CPROVER_r_ok(b, 1));   /* (a failed obligation above ends the path) */
     VCMP_LOAD
     VCMP_BODY(VLOW)
     return VCMP_REC(v_cmp_tail());
@@ -527,7 +535,7 @@ int v_snprintf(char *d, size_t size, int unused)
  *      recording which table entry was selected: the read of context[id].handler stays in
  *      place (so the table bounds/pointer obligations of the original expression remain) and
  *      the handler identity is logged as (id, pointer read).  vhandler stands for every
- *      handler: it logs (id, handler, kind, text, state_in), may set the skip-to-end flag of
+ *      handler: it logs (id, handler, kind, text, state_in, state_out), may set the skip-to-end flag of
  *      the current file (the one piece of parser state the handler API lets handlers change)
  *      and returns an arbitrary state_out.
  *  (b) ctx_name_to_id(the_id, n, i) hides a for loop in a macro, where the annotator cannot
@@ -540,19 +548,22 @@ int v_snprintf(char *d, size_t size, int unused)
 void *vhandler(spif_charptr_t text, void *state)
 {
     __CPROVER_assert(text != NULL && __CPROVER_r_ok(text, 1), "handler: text readable");
-    vlog_t *e = &vg_log[vg_nlog % VLOG_MAX];
-    e->id = vg_call_id;
-    e->h = vg_call_h;
-    e->kind = (*text == SPIFCONF_BEGIN_CHAR) ? VK_BEGIN : ((*text == SPIFCONF_END_CHAR) ? VK_END : VK_TEXT);
-    e->text = text;
-    e->in = state;
-    e->out = nondet_ptr();
-    e->seq = ++vg_seq;
+    void *out = nondet_ptr();
+    vg_hl.c2 = vg_hl.c1;
+    vg_hl.c1 = vg_hl.c0;
+    vg_hl.c0.id = vg_call_id;
+    vg_hl.c0.h = vg_call_h;
+    vg_hl.c0.kind = (*text == SPIFCONF_BEGIN_CHAR) ? VK_BEGIN : ((*text == SPIFCONF_END_CHAR) ? VK_END : VK_TEXT);
+    vg_hl.c0.text = text;
+    vg_hl.c0.in = state;
+    vg_hl.c0.out = out;
+    vg_seq++;
+    vg_hl.c0.seq = vg_seq;
     vg_nlog++;
     if (nondet_bool()) {
         file_skip_to_end();
     }
-    return e->out;
+    return out;
 }
 #undef  ctx_id_to_func
 #define ctx_id_to_func(id)  (vg_call_id = (id), vg_call_h = context[(id)].handler, &vhandler)
@@ -570,6 +581,23 @@ static unsigned long v_ctx_lookup(spif_charptr_t n);
                                          (the_id) = 0; \
                                        } \
                                      } while (0)
+
+/*  (c) (units that define VERIF_CONF_PUSH_MODELS)  ctx_push(ctx) and file_push(f,p,o,l,fl) are the
+ *      macros through which parse_line calls spifconf_register_context_state / _fstate.  Those two
+ *      functions are proved against their contracts in C09.register_*; at these call sites the
+ *      macros are re-bound to the MODEL functions v_ctx_push / v_file_push (contracts/conf.h),
+ *      which assert the proved contract's precondition, havoc its assigns targets (the old table
+ *      is freed, a fresh one allocated) and assume its postcondition — what
+ *      --replace-call-with-contract does, without a write set per call (each replaced call costs
+ *      DFCC nine arrays indexed by object number, re-merged at every return of the caller). */
+#ifdef VERIF_CONF_PUSH_MODELS
+static unsigned char v_ctx_push(unsigned char ctx_id);
+static unsigned char v_file_push(FILE *fp, spif_charptr_t path, spif_charptr_t outfile, unsigned long line, unsigned char flags);
+#undef  ctx_push
+#define ctx_push(ctx)              v_ctx_push(ctx)
+#undef  file_push
+#define file_push(f, p, o, l, fl)  v_file_push(f, p, o, l, fl)
+#endif
 #endif /* VERIF_CONF_REBIND */
 
 #endif /* VERIF_ENV_CONF_H */
